@@ -1322,7 +1322,7 @@ func errorField(errv mv, field string) string {
 
 func init() {
 	register(&Rule{ID: "NAME.model", Floor: 7,
-		Doc: "variable discovery in expressions and templates (VariableNames after ParseString), automatic variables (default collections after SetExpression/SetTemplate with entries already present), the collections as ordered lists (every sequence of three of add/remove/remove-by-name/locate/clear/clear-values, FindIndexByName probes after every step) and resolution (first added wins case-insensitively; VAR_NOT_FOUND / FUNC_NOT_FOUND name the missing identifier), evaluated abstractly through the exported API against the list model",
+		Doc: "variable discovery in expressions and templates (VariableNames after ParseString), automatic variables (default collections after SetExpression/SetTemplate with entries already present), the collections as ordered lists (every sequence of three of add/remove/remove-by-name/locate/clear/clear-values, FindIndexByName probes after every step) and resolution (first added wins case-insensitively; VAR_NOT_FOUND / FUNC_NOT_FOUND name the missing identifier; every three-step history of evaluations and collection changes on one calculator), identifiers whose case mappings are not one-to-one and the empty quoted identifier, evaluated abstractly through the exported API against the list model",
 		Run: func(c *Ctx) []*Obligation {
 			o := newObl("NAME.model")
 			nv := c.namexRun()
